@@ -14,11 +14,19 @@ pub struct GenCfg {
     pub typename: bool,
     /// leave out interface- and union-typed fields (every type condition then applies)
     pub no_abstract: bool,
+    /// attach the pass-through custom directive `@noop` to some fields (static schemas only)
+    pub custom_directive: bool,
+}
+
+impl GenCfg {
+    pub fn for_flavour(self, is_static: bool) -> Self {
+        GenCfg { custom_directive: is_static && self.directives, ..self }
+    }
 }
 
 impl Default for GenCfg {
     fn default() -> Self {
-        GenCfg { max_depth: 4, max_fields: 18, dup_keys: false, fragments: true, directives: true, typename: true, no_abstract: false }
+        GenCfg { max_depth: 4, max_fields: 18, dup_keys: false, fragments: true, directives: true, typename: true, no_abstract: false, custom_directive: false }
     }
 }
 
@@ -71,6 +79,9 @@ impl G {
         s.push_str(&sig);
         if self.cfg.directives && chance(1, 12) {
             s.push_str(if chance(1, 2) { " @skip(if: false)" } else { " @include(if: true)" });
+        }
+        if self.cfg.custom_directive && parent != "Subscription" && chance(1, 10) {
+            s.push_str(" @noop");
         }
         if is_composite(def) {
             let ty = Ty::parse(def.ty);
